@@ -12,6 +12,7 @@ the model's.  Reference: a sentence is accepted iff it is in the grammar and eve
 import itertools, json, os, re, sys, time, z3
 import loader, models, interp, natives_fs
 from interp import Machine, SliceRef, RStr, Ptr, Struct, Enum, Opaque, BoxObj, Unsupported, RustPanic, PathAbort, UNIT
+from interp import VecObj as VecObj, BoxObj as BoxObj, Ptr as Ptr
 from models import Some, NONE, Ok, Err, deref
 from natives_fs import PStr, text_of
 import c16_printf
@@ -367,3 +368,99 @@ if __name__ == "__main__":
         k = " ".join(x["tokens"][:2]) + x["what"][:30]
         if k in seen: continue
         seen.add(k); print("  ", x["tokens"], x["what"])
+
+
+TIME_WORDS = ["-atime", "-ctime", "-mtime", "-amin", "-cmin", "-mmin", "-newer", "-anewer", "-cnewer", "-newermm", "-neweram", "-newerma", "-newerac", "-newerca", "-newercm", "-newermc", "-newercc", "-neweraa"]
+
+
+def _find_structs(v, want, seen=None, depth=0):
+    """structs of the given type names reachable from v (the matcher tree the parser built)"""
+    seen = seen if seen is not None else set()
+    if id(v) in seen or depth > 12:
+        return []
+    seen.add(id(v))
+    out = []
+    if isinstance(v, (Struct, Enum)):
+        if isinstance(v, Struct) and v.ty in want:
+            out.append(v)
+        for f in v.fields:
+            out += _find_structs(f, want, seen, depth + 1)
+    elif isinstance(v, BoxObj):
+        out += _find_structs(v.cell[0] if v.cell else None, want, seen, depth + 1)
+    elif isinstance(v, VecObj):
+        for x in v.items:
+            out += _find_structs(x, want, seen, depth + 1)
+    elif isinstance(v, Ptr):
+        try:
+            out += _find_structs(v.load(), want, seen, depth + 1)
+        except Exception:
+            pass
+    elif isinstance(v, (list, tuple)):
+        for x in v:
+            out += _find_structs(x, want, seen, depth + 1)
+    return out
+
+
+def explore_time_kinds(funcs, index, enums):
+    """C15 "each on its own timestamp": which timestamp the PARSER hands to the matcher for each time primary. build_top_level_matcher on `WORD OPERAND`;
+    FileTimeMatcher::new / FileAgeRangeMatcher::new run from MIR and the kind is read off the matcher they built; NewerOptionMatcher::new / NewerMatcher::new
+    (they stat the reference file) are recorders of the (X, Y) they are given. That a matcher of kind K compares timestamp K is the Kani harnesses' part
+    (c15_age_days, c15_age_minutes, c15_newer_xy: the kind is symbolic there)."""
+    res = {"kind": "time primaries -> timestamp kind", "paths": 0, "checks": 0, "violations": [], "unsupported": {}, "samples": []}
+    rec = {}
+    nat = natives()
+    def newer_opt(m, a):
+        rec["xy"] = (text_of(m, a[0]), text_of(m, a[1]), text_of(m, a[2]))
+        return Ok(Struct("NewerOptionMatcher", []))
+    def newer_plain(m, a):
+        rec["xy"] = ("m", "m", text_of(m, a[0]))
+        return Ok(Struct("NewerMatcher", []))
+    nat["NewerOptionMatcher::new"] = newer_opt
+    nat["NewerMatcher::new"] = newer_plain
+    m = Machine(funcs, index, enums, models, natives=nat, max_steps=2000000)
+    w = z3.Int("word")
+    m.base_constraints = [w >= 0, w < len(TIME_WORDS)]
+    m.pending = [[]]
+    t0 = time.time()
+    while m.pending:
+        m.reset_path(m.pending.pop())
+        rec.clear()
+        try:
+            wi = m.decide_int(w, list(range(len(TIME_WORDS) - 1)))
+            wi = len(TIME_WORDS) - 1 if wi is None else wi
+            word = TIME_WORDS[wi]
+            operand = "1" if word[2:] in ("time", "min") else "ref"
+            cfg = [m.call("<Config as Default>::default", [])]
+            r = m.call("build_top_level_matcher", [SliceRef([RStr(word), RStr(operand)]), Ptr(cfg, 0)])
+        except RustPanic as e:
+            res["violations"].append({"what": "panic: " + str(e)[:80]}); res["paths"] += 1
+            continue
+        except Unsupported as e:
+            res["unsupported"][str(e)[:100]] = res["unsupported"].get(str(e)[:100], 0) + 1
+            continue
+        except PathAbort:
+            continue
+        res["paths"] += 1
+        res["checks"] += 1
+        if r.variant != "Ok":
+            res["violations"].append({"what": "%s %s rejected" % (word, operand)})
+            continue
+        if operand == "1":
+            want_ty = "FileTimeMatcher" if word.endswith("time") else "FileAgeRangeMatcher"
+            want_kind = {"a": "Accessed", "c": "Changed", "m": "Modified"}[word[1]]
+            found = _find_structs(r.fields[0], {"FileTimeMatcher", "FileAgeRangeMatcher"})
+            kinds = [(s.ty, [f.variant for f in s.fields if isinstance(f, Enum) and f.ty == "FileTimeType"]) for s in found]
+            if kinds != [(want_ty, [want_kind])]:
+                res["violations"].append({"what": "%s builds %r, expected a %s on the %s timestamp" % (word, kinds, want_ty, want_kind)})
+            elif len(res["samples"]) < 3:
+                res["samples"].append({"primary": word, "matcher": want_ty, "timestamp": want_kind})
+        else:
+            mo = re.fullmatch(r"-newer([aBcm])([aBcmt])", word)
+            want = {"-newer": ("m", "m"), "-anewer": ("a", "m"), "-cnewer": ("c", "m")}.get(word) or mo.groups()
+            got = rec.get("xy")
+            if got is None or got[:2] != want or got[2] != "ref":
+                res["violations"].append({"what": "%s ref hands (X, Y, file) = %r to the matcher, expected %r + 'ref'" % (word, got, want)})
+    res["wall_s"] = round(time.time() - t0, 2)
+    res["solver_calls"] = m.stats["solver_calls"]
+    res["functions_executed"] = sorted(m.executed)
+    return res
